@@ -29,7 +29,10 @@ env = dict(os.environ, EON_REPO=root, EON_OUT=root + '/out')
 rc_all = {}
 for cid in args:
     t = time.time()
-    r = subprocess.run(['/verif/check', cid] + (['--tier', os.environ['TIER']] if 'TIER' in os.environ else []), env=env, capture_output=True, text=True)
+    try:
+      r = subprocess.run(['/verif/check', cid] + (['--tier', os.environ['TIER']] if 'TIER' in os.environ else []), env=env, capture_output=True, text=True, timeout=int(os.environ.get('MUT_TIMEOUT', '900')))
+    except subprocess.TimeoutExpired:
+      print('%s %s TIMEOUT' % (name, cid)); subprocess.run(['pkill', '-f', 'EON_REPO=%s' % root]); continue
     lines = [l for l in r.stdout.splitlines() if l.startswith(('VIOLATION', '  sub=', 'HARNESS', 'KNOWN'))][:6]
     print('%s %s exit=%d %.1fs' % (name, cid, r.returncode, time.time() - t))
     for l in lines: print('   ', l[:300])
